@@ -238,8 +238,29 @@ func vBuildSmallTrees() (int, []string) {
 			}
 		}
 	}
+	// generated content: every ::before content value of one or two items and ::after value of one item over thirteen
+	// item kinds (quotes of the four kinds, strings, counters, attr() with and without a type), under
+	// three values of the quotes property, on a paragraph holding a <q>
+	items := []string{"open-quote", "close-quote", "no-open-quote", "no-close-quote", `"s"`, "counter(c)", "counters(c, '.')",
+		"attr(title)", "attr(title string)", "attr(href url)", "attr(nohref url)", "attr(frag url)", "target-counter(attr(nohref url), c)"}
+	var contents []string
+	for _, a := range items {
+		contents = append(contents, a)
+		for _, b := range items {
+			contents = append(contents, a+" "+b)
+		}
+	}
+	for _, quotes := range []string{"auto", `"<" ">"`, `"<" ">" "<<" ">>"`, "none"} {
+		for _, before := range contents {
+			for _, after := range items {
+				build("content "+quotes+" / "+before+" / "+after, fmt.Sprintf(
+					`<style>p { quotes: %s } p::before { content: %s } p::after { content: %s }</style><p title="t" href="u" frag="#f">a<q>b</q></p><p>c</p>`,
+					quotes, before, after))
+			}
+		}
+	}
 	return n, fails
 }
 
-//@ bounded vBuildSmallTrees BuildFormattingStructure on every document of three elements (chain and fork) over 15 display values, with separated and collapsed borders (13 500 documents), and 64 counter-property combinations: no panic, the root is a block
+//@ bounded vBuildSmallTrees BuildFormattingStructure on every document of three elements (chain and fork) over 15 display values, with separated and collapsed borders (13 500 documents), 64 counter-property combinations, and 9 464 generated-content documents (::before of one or two items and ::after of one item over 13 kinds: the four quote keywords, strings, counters, attr() with string and url types, present and missing; under four values of quotes): no panic, the root is a block
 //@   props C01
